@@ -37,11 +37,13 @@ PROPERTY = "C17"
 STUBS = [
     "stdlib random module functions -> SymRng draws (a fresh solver variable per call: integers / positions symbolic; random(), uniform(), gauss(), expovariate() a solver-chosen member of a 3-4 point grid, so that the value survives math.log / float(); after the first 4 draws of a path the remaining draws come from one of 4 ordinary pseudo-random streams, the stream being solver-chosen); explicit random.Random(seed) instances stay real",
     "numpy.random global functions -> tripwire",
-    "set/frozenset names in cotengra.{core,slicer,hypergraph,utils,pathfinders.path_basic,pathfinders.path_simulated_annealing,pathfinders.path_labels} -> NDSet: sets containing str iterate in a solver-chosen order",
+    "set/frozenset names in cotengra.{core,slicer,hypergraph,utils,scoring,pathfinders.path_basic,pathfinders.path_simulated_annealing,pathfinders.path_labels} -> NDSet: sets containing str iterate in a solver-chosen order; "
+    "the functions of those modules run from code recompiled (on every run, from the current source) after an AST pass that wraps set displays, set comprehensions, binary - & | ^ (dict-view arithmetic) and set-returning method calls, so that builtin sets produced there are NDSets too",
 ]
 ASSUMPTIONS = [
+    "second NDSet pass ('ndworld'): one solver-chosen hash world per path (8 quick / 24 thorough), all sets of the run iterate by that world's ranking of their elements (the way one PYTHONHASHSEED orders them)",
     "NDSet is a per-iteration arbitrary order (an over-approximation of CPython's hash-dependent order: counterexamples are replayed under different PYTHONHASHSEED values before being reported)",
-    "set displays / comprehensions ({...}) are not intercepted (listed by an AST scan in the evidence)",
+    "sets created inside C code (e.g. by a C-implemented helper returning a fresh set) are not intercepted",
 ]
 OUTSIDE = ["numpy / kahypar / networkx internal generators given an explicit seed", "real CPython set-order semantics beyond the NDSet model", "process pools"]
 
@@ -70,6 +72,17 @@ def big_tree():
     # balanced: which subtree a random expansion reaches really depends on the draws
     ssa = [(0, 1), (2, 3), (4, 5), (6, 7), (8, 9), (10, 11), (12, 13)]
     return ContractionTree.from_path(BIG_INPUTS, BIG_OUTPUT, BIG_SIZE, ssa_path=ssa)
+
+
+OUT2_INPUTS = ("abp", "bc", "cdq", "de", "ef", "fa")  # a ring with two output legs: every bond scores alike
+OUT2_OUTPUT = "pq"
+OUT2_SIZE = {c: 2 for c in "abcdefpq"}
+
+
+def out2_tree():
+    from cotengra.core import ContractionTree
+
+    return ContractionTree.from_path(OUT2_INPUTS, OUT2_OUTPUT, OUT2_SIZE, ssa_path=[(0, 1), (6, 2), (7, 3), (8, 4), (9, 5)])
 
 
 def canon_tree(t):
@@ -157,6 +170,10 @@ def apis():
         "GreedyCompressed[temperature]": lambda s: __import__("cotengra.pathfinders.path_compressed_greedy", fromlist=["x"]).GreedyCompressed(chi=4, temperature=0.5, seed=s).get_ssa_path(list(BIG_INPUTS), BIG_OUTPUT, BIG_SIZE),
         "GreedySpan[temperature]": lambda s: __import__("cotengra.pathfinders.path_compressed_greedy", fromlist=["x"]).GreedySpan(temperature=0.5, seed=s).get_ssa_path(list(BIG_INPUTS), BIG_OUTPUT, BIG_SIZE),
         "make_arrays_from_eq": lambda s: U.make_arrays_from_eq("ab,bc->ac", seed=s),
+        # --- outer (output) indices forbidden / required: two output indices, uniform sizes (near-tied scores)
+        "tree.slice[allow_outer=False]": lambda s: out2_tree().slice(target_slices=4, allow_outer=False, temperature=0.5, seed=s),
+        "tree.slice[allow_outer=only]": lambda s: out2_tree().slice(target_slices=2, allow_outer="only", temperature=0.5, seed=s),
+        "SliceFinder.search[allow_outer=False]": lambda s: sorted(SliceFinder(out2_tree(), target_slices=4, allow_outer=False, temperature=0.5, seed=s).search(3)[0]),
     }
 
 
@@ -175,6 +192,7 @@ def items(tier, seed):
         for s in (7, 11):
             its.append({"api": name, "seed": s, "mode": "global", "tier": tier})
         its.append({"api": name, "seed": 7, "mode": "ndset", "tier": tier})
+        its.append({"api": name, "seed": 7, "mode": "ndworld", "tier": tier})
     return its
 
 
@@ -221,6 +239,15 @@ class NDSetMixin:
         items = list(base_iter)
         if len(items) > 1 and any(isinstance(x, str) for x in items) and symx.CTX is not None and NDSTATE["on"]:
             NDSTATE["consulted"] += 1
+            if NDSTATE.get("worlds"):
+                # one solver-chosen 'hash world' per path: every set of the run iterates by the same world-dependent ranking
+                # of its elements (as under one PYTHONHASHSEED), instead of an independent arbitrary order per iteration
+                if NDSTATE.get("world") is None:
+                    NDSTATE["world"] = symx.choose("hash_world", NDSTATE["worlds"])
+                w = NDSTATE["world"]
+                import hashlib
+
+                return iter(sorted(items, key=lambda x: hashlib.md5((str(w) + repr(x)).encode()).digest()))
             out = []
             pool = sorted(items, key=repr)
             while pool:
@@ -229,7 +256,7 @@ class NDSetMixin:
         return iter(items)
 
 
-NDSTATE = {"on": False, "consulted": 0}
+NDSTATE = {"on": False, "consulted": 0, "worlds": 0, "world": None}
 
 
 def _wrap_result(cls, r):
@@ -275,21 +302,127 @@ ND_MODULES = ["cotengra.core", "cotengra.slicer", "cotengra.hypergraph", "coteng
               "cotengra.pathfinders.path_simulated_annealing", "cotengra.pathfinders.path_labels", "cotengra.scoring"]
 
 
+def _ndwrap(x):
+    """builtin sets produced by displays, comprehensions, dict-view arithmetic or set methods become NDSets"""
+    t = type(x)
+    if t is set:
+        return NDSet(x)
+    if t is frozenset:
+        return NDFrozenSet(x)
+    return x
+
+
+class _NDRewriter(__import__("ast").NodeTransformer):
+    """wrap every expression that can evaluate to a builtin set: {..} displays, set comprehensions, binary - & | ^
+    (dict views!), and calls of set-returning methods.  Regenerated from the module's current source on every run."""
+
+    METHODS = {"union", "intersection", "difference", "symmetric_difference", "copy", "keys", "items", "fromkeys"}
+
+    def _wrap(self, node):
+        import ast
+
+        return ast.copy_location(ast.Call(func=ast.Name(id="verif_ndwrap_", ctx=ast.Load()), args=[node], keywords=[]), node)
+
+    def visit_Set(self, node):
+        self.generic_visit(node)
+        return self._wrap(node)
+
+    def visit_SetComp(self, node):
+        self.generic_visit(node)
+        return self._wrap(node)
+
+    def visit_BinOp(self, node):
+        import ast
+
+        self.generic_visit(node)
+        if isinstance(node.op, (ast.Sub, ast.BitAnd, ast.BitOr, ast.BitXor)):
+            return self._wrap(node)
+        return node
+
+    def visit_Call(self, node):
+        import ast
+
+        self.generic_visit(node)
+        if isinstance(node.func, ast.Attribute) and node.func.attr in ("union", "intersection", "difference", "symmetric_difference"):
+            return self._wrap(node)
+        return node
+
+
+def _code_by_qualname(code, out):
+    for c in code.co_consts:
+        if hasattr(c, "co_code"):
+            out.setdefault((c.co_qualname, c.co_firstlineno), c)
+            _code_by_qualname(c, out)
+    return out
+
+
+def _functions_of(mod):
+    """every function object defined in the module (module level and in its classes)"""
+    import types
+
+    seen = []
+    for obj in list(mod.__dict__.values()):
+        if isinstance(obj, types.FunctionType) and obj.__module__ == mod.__name__:
+            seen.append(obj)
+        elif isinstance(obj, type) and obj.__module__ == mod.__name__:
+            for v in list(obj.__dict__.values()):
+                f = v
+                if isinstance(v, (staticmethod, classmethod)):
+                    f = v.__func__
+                elif isinstance(v, property):
+                    for g in (v.fget, v.fset, v.fdel):
+                        if isinstance(g, types.FunctionType):
+                            seen.append(g)
+                    continue
+                elif isinstance(v, __import__("functools").partialmethod):
+                    continue
+                if isinstance(f, types.FunctionType):
+                    seen.append(f)
+    return seen
+
+
+def _rewrite_module(mod):
+    """returns [(function, original code)] after swapping in code compiled from the rewritten source"""
+    import ast
+
+    src = open(mod.__file__).read()
+    tree = _NDRewriter().visit(ast.parse(src))
+    ast.fix_missing_locations(tree)
+    table = _code_by_qualname(compile(tree, mod.__file__, "exec"), {})
+    swapped = []
+    for f in _functions_of(mod):
+        c = f.__code__
+        new = table.get((c.co_qualname, c.co_firstlineno))
+        if new is not None and new.co_freevars == c.co_freevars:
+            swapped.append((f, c))
+            f.__code__ = new
+    mod.__dict__["verif_ndwrap_"] = _ndwrap
+    return swapped
+
+
 @contextlib.contextmanager
 def nd_sets():
     import importlib
 
     mods = [importlib.import_module(m) for m in ND_MODULES]
     saved = [(m, m.__dict__.get("set", None), m.__dict__.get("frozenset", None)) for m in mods]
+    swapped = []
     try:
         for m in mods:
             m.set = NDSet
             m.frozenset = NDFrozenSet
+            swapped += _rewrite_module(m)
         NDSTATE["on"] = True
         NDSTATE["consulted"] = 0
+        NDSTATE["world"] = None
+        NDSTATE["functions_rewritten"] = len(swapped)
         yield
     finally:
         NDSTATE["on"] = False
+        for f, c in swapped:
+            f.__code__ = c
+        for m in mods:
+            m.__dict__.pop("verif_ndwrap_", None)
         for m, s, f in saved:
             for name, v in (("set", s), ("frozenset", f)):
                 if v is None:
@@ -331,7 +464,8 @@ def run_item(item, rec):
 
     def harness(ctx):
         with symbolic_globals() as g:
-            cm = nd_sets() if mode == "ndset" else contextlib.nullcontext()
+            NDSTATE["worlds"] = (8 if tier == "quick" else 24) if mode == "ndworld" else 0
+            cm = nd_sets() if mode in ("ndset", "ndworld") else contextlib.nullcontext()
             with cm:
                 try:
                     k = symx.choose("prefix", 1 + len(others)) if mode == "global" else 0
